@@ -628,6 +628,7 @@ def dft_probes(rng, tier, out):
                        "observed = float(np.abs(z - x).max()); expected = 0.0\nok = observed <= tol\n")
                 # (d') the inverse leaves ITS input unchanged
                 _probe(out, ('dft-inverse-hc-pyfftw-destroys-input' if (impl == 'pyfftw' and hc and len(axes) >= 2)
+                             else 'dft-inverse-real-nonhc-pyfftw' if (impl == 'pyfftw' and real and not hc)
                              else 'dft-inverse-input-unchanged-%s-%s%s' % (impl, kind, '-hc' if hc else '')),
                        'calling the inverse operator leaves its input unchanged: ' + cfg,
                        head + "y = op(x.copy()); y = op(x.copy()); y0 = np.asarray(y).copy()\n"
@@ -822,8 +823,9 @@ def wavelet_probes(rng, tier, out):
             snippet = (_PRE + "sp = odl.uniform_discr(%r, %r, %r)\n"
                        "W = odl.trafos.WaveletTransform(sp, %r, nlevels=%d, pad_mode=%r, axes=%r)\n"
                        "x = sp.element(np.random.RandomState(%d).randint(-4, 5, %r).astype(float))\n"
-                       "try:\n    z = W.inverse(W(x)); observed = float(np.abs(np.asarray(z) - np.asarray(x)).max())\n"
-                       "    ok = z.shape == x.shape and observed <= 1e-9\n"
+                       "try:\n    y = W(x); z = W.inverse(y); observed = float(np.abs(np.asarray(z) - np.asarray(x)).max())\n"
+                       "    # rounding is relative to the size of the coefficients (extrapolating pad modes amplify)\n"
+                       "    ok = z.shape == x.shape and observed <= 1e-10 * (10 + float(np.abs(np.asarray(y)).max()))\n"
                        "except ValueError as e:\n"
                        "    ok = '[anti]reflect' in str(e)   # PyWavelets' own restriction on length-1 signals\n"
                        % ([0.0] * nd, [1.0] * nd, shape, name, L, pm, axes, rng.randint(0, 10 ** 6), tuple(shape)))
